@@ -229,8 +229,15 @@ def gen_fusion(d, ref:Ref, dtx, atx, intronic_p=0.3):
 
 def gen_circ(d, ref:Ref, tid, intron_p=0.0):
     ex = ref.exons_gene(tid)
-    i = d.randint(0, len(ex) - 1)
-    j = d.randint(i, len(ex) - 1)
+    # circRNAs of a few nucleotides do not exist (CIRCexplorer reports hundreds of nt; the
+    # tool unrolls four copies): at least 30 nt, else the whole transcript
+    for _ in range(6):
+        i = d.randint(0, len(ex) - 1)
+        j = d.randint(i, len(ex) - 1)
+        if sum(b - a for a, b in ex[i:j + 1]) >= 30:
+            break
+    else:
+        i, j = 0, len(ex) - 1
     frags = [list(x) for x in ex[i:j + 1]]
     start, end = frags[0][0], frags[-1][1]
     return dict(kind='circ', tx=tid, frags=frags, introns=[], id=f'CIRC-{tid}-{start}:{end}')
